@@ -343,9 +343,17 @@ func (l *log) GetByTime(start time.Time) (message.Message, error) {
 			// time is between end of this and begin next
 			if i < len(l.readers)-1 {
 				nextRdr := l.readers[i+1]
-				return nextRdr.Get(message.OffsetOldest)
+				// only an empty head segment has no oldest message, then nothing is after
+				if msg, err := nextRdr.Get(message.OffsetOldest); err != index.ErrOffsetIndexEmpty {
+					return msg, err
+				}
 			}
 			return message.Invalid, errTimeNotFound
+		case index.ErrTimeIndexEmpty:
+			// an empty head segment holds no messages, try the rest
+			if i == 0 {
+				return message.Invalid, err
+			}
 		default:
 			return message.Invalid, err
 		}
